@@ -96,6 +96,16 @@ func c02Gen(tier string, r *rand.Rand) []Case {
 			ts = append(ts, c02Triple{rs(), fmt.Sprintf("tag%d", i%2), msg(i % 2), -1})
 		}
 		add("per-index-tags", ts, false)
+		// ONE message under different per-index hashers (tags): H_i(m) differs although the message bytes agree
+		ts = nil
+		for i := 0; i < n; i++ {
+			ts = append(ts, c02Triple{rs(), fmt.Sprintf("tag%d", i%2), msg(0), -1})
+		}
+		add("same-message-different-tags", ts, false)
+		ts = []c02Triple{{k, "tagA", msg(0), -1}, {k2, "tagB", msg(0), -1}}
+		add("same-message-different-tags", ts, false)
+		ts = []c02Triple{{k, "tagA", msg(0), -1}, {k2, "tagB", msg(1), -1}, {k, "tagC", msg(0), 0}}
+		add("same-message-different-tags", ts, false)
 		// few messages / many keys with a tie broken each way
 		ts = nil
 		for i := 0; i < n; i++ {
